@@ -54,7 +54,7 @@ def assign_ids(rng: random.Random, nodes: list[dict], edges: list[dict]) -> None
         off = rng.choice([250, 253, 65530, 70000])
         tids = [t + off for t in tids]
     # ids numbered from 0 are legitimate (other tools number tracks and lineages from 0)
-    if tids and rng.random() < 0.12:
+    if tids and rng.random() < 0.2:
         tids[rng.randrange(len(tids))] = 0
     if lins and rng.random() < 0.15:
         lins[rng.randrange(len(lins))] = 0
@@ -161,6 +161,10 @@ def gen_case(rng: random.Random, cfg: str | None = None, max_nodes: int = 8, fra
             e["v"] = 0 if e["v"] == victim else e["v"]
     spec["nodes"] = nodes
     spec["edges"] = edges
+    if rng.random() < 0.15:
+        spec["time_dtype"] = rng.choice(["int64", "uint16", "uint8", "int32"])
+    if spec.get("scale") is not None and rng.random() < 0.4:
+        spec["scale_type"] = rng.choice(["tuple", "ndarray", "ndarray"])
     if rng.random() < 0.2:
         spec["prebuilt"] = True   # constructed from a pre-built FeatureDict
         if rng.random() < 0.35:
@@ -246,9 +250,14 @@ def pick_node(rng, tracks, fresh_ok=False):
 
 def fresh_node_id(rng, tracks) -> int:
     base = getattr(tracks, "_verif_id_base", 0)
+    taken = getattr(tracks, "_verif_orphans", None)
+    if taken is None:
+        # labels of the array that belong to no node (only in "orphan label" cases): not fresh
+        seg = getattr(tracks, "segmentation", None)
+        taken = set() if seg is None else {int(v) for v in np.unique(seg) if v and int(v) not in tracks.graph and int(v) >= 60 and int(v) < 200}
     while True:
         n = base + rng.randrange(1, 80)
-        if n not in tracks.graph:
+        if n not in tracks.graph and n not in taken:
             return n
 
 
@@ -294,6 +303,14 @@ def gen_op(rng: random.Random, case: F.Case, tracks, kinds: list[str], always_re
         #  one is responsible for its consistency)
         if rng.random() < 0.25:
             op["score"] = rng.randrange(100)
+        if case.cfg == "seg" and case.spec.get("orphan_labels") and rng.random() < 0.5:
+            segf = tracks.segmentation.reshape(-1)
+            orph = sorted({int(v) for v in segf if v and int(v) not in g})
+            if orph:
+                lab = rng.choice(orph)
+                pos0 = int(np.nonzero(segf == lab)[0][0])
+                op.update(id=lab, time=pos0 // case.frame, pixels=None, pos=rng.randrange(1, 50))
+                return op
         if case.cfg == "seg":
             free = free_pixels(case, tracks, time) if op["time"] is not None else []
             if free and rng.random() < 0.93:
@@ -304,8 +321,13 @@ def gen_op(rng: random.Random, case: F.Case, tracks, kinds: list[str], always_re
                     op["rp_attrs"] = {str(k): rng.randrange(1, 30) for k in rng.sample([F.K_POS, F.K_AREA], rng.randint(1, 2))}
             else:
                 op["pixels"] = None  # missing segmentation and position -> ValueError
+                if rng.random() < 0.5:
+                    # a bare point on tracks with a segmentation: position given, no pixels
+                    op["pos"] = rng.randrange(1, 50)
         else:
             op["pos"] = rng.randrange(1, 50) if rng.random() < 0.9 else None
+            if rng.random() < 0.06:
+                op["pixels"] = [0, 1]   # the optional `pixels=` on tracks without a segmentation
         return op
     if kind == "delnode":
         n = pick_node(rng, tracks, True)
@@ -335,8 +357,12 @@ def gen_op(rng: random.Random, case: F.Case, tracks, kinds: list[str], always_re
         if here and rng.random() < 0.7:
             victim = rng.choice(here)
             voffs = [o for o in range(frame) if seg[t * frame + o] == victim]
-            offs = list(voffs) if rng.random() < 0.45 else rng.sample(voffs, rng.randint(1, len(voffs)))
+            if voffs:   # (a bare-point node has no pixels)
+                offs = list(voffs) if rng.random() < 0.45 else rng.sample(voffs, rng.randint(1, len(voffs)))
         extra = [o for o in range(frame) if o not in offs]
+        if case.spec.get("orphan_labels"):
+            # a stroke over a label that belongs to no node is outside the stroke contract
+            extra = [o for o in extra if seg[t * frame + o] == 0 or int(seg[t * frame + o]) in g]
         offs += rng.sample(extra, min(len(extra), rng.randint(0, k)))
         if not offs:
             offs = [rng.randrange(frame)]
@@ -351,7 +377,21 @@ def gen_op(rng: random.Random, case: F.Case, tracks, kinds: list[str], always_re
         # painting a label onto pixels that already carry it is not a change: drop those
         pixels = [p for p in pixels if int(seg[p]) != value]
         if not pixels:
-            pixels = [p for p in range(t * frame, (t + 1) * frame) if int(seg[p]) != value][:1]
+            pixels = [p for p in range(t * frame, (t + 1) * frame) if int(seg[p]) != value
+                      and (int(seg[p]) == 0 or int(seg[p]) in g)][:1]
+        if not pixels:
+            return {"op": "undo"}
+        if value == 0 and T > 1 and rng.random() < 0.25 and not case.spec.get("orphan_labels"):
+            # an ERASE stroke that spans a second frame (a labels layer edited in one more dimension):
+            # accepted by the action; each group is handled in its own frame
+            t2 = rng.choice([x for x in range(T) if x != t])
+            here2 = [n for n in nodes if g.nodes[n]["time"] == t2]
+            if here2:
+                v2 = rng.choice(here2)
+                o2 = [o for o in range(frame) if seg[t2 * frame + o] == v2]
+                if o2:
+                    o2 = list(o2) if rng.random() < 0.4 else rng.sample(o2, rng.randint(1, len(o2)))
+                    pixels = pixels + sorted(t2 * frame + o for o in o2)
         r = rng.random()
         tid = rng.choice(tids) if (tids and r < 0.6) else (tracks.get_next_track_id() if r < 0.85 else rng.randrange(1, 40))
         return {"op": "paint", "value": value, "pixels": pixels, "tid": tid,
